@@ -27,7 +27,7 @@ def FLOORS(tier):
     q = tier == "quick"
     f = {"convert_solution-checks": 3000 if q else 10 ** 5, "export:Q": 60, "export:hJ": 60,
          "export:matrix_to_qubo": 60, "export:qubo_to_matrix": 100, "real-coefficients": 100,
-         "raw-repeated-labels": 50, "all-ones-solution": 30}
+         "raw-repeated-labels": 50, "all-ones-solution": 30, "user-mapping:set_mapping": 60, "user-mapping:set_reverse_mapping": 60}
     for fn, (kind, d2) in FREE.items():
         for t in SRC[kind]:
             if d2 and t in ("PUBO", "PCBO", "PUSO", "PCSO", "PUBOMatrix", "PUSOMatrix"):
@@ -123,11 +123,20 @@ def case_method(ctx, rng):
     M = gen.model_of(T, terms)
     if rng.random() < 0.7:
         M.refresh()
-    if rng.random() < 0.3 and M.num_binary_variables:
+    if rng.random() < 0.4 and M.num_binary_variables:
         vs = list(M.mapping)
         perm = list(range(len(vs)))
         rng.shuffle(perm)
-        M.set_mapping({v: perm[i] for i, v in enumerate(vs)})
+        if rng.random() < 0.5:
+            M.set_mapping({v: perm[i] for i, v in enumerate(vs)})
+            ctx.cat("user-mapping:set_mapping")
+        else:
+            M.set_reverse_mapping({perm[i]: v for i, v in enumerate(vs)})
+            ctx.cat("user-mapping:set_reverse_mapping")
+        if {v: k for k, v in M.mapping.items()} != M.reverse_mapping:
+            ctx.violation("set_mapping:reverse-not-inverse", "after a user mapping, mapping %r and reverse_mapping %r are not inverse" % (M.mapping, M.reverse_mapping),
+                          {"type": tn, "terms": dict(M)})
+            return
     src = ref.from_raw(kind, dict(M))
     forms = ["qubo", "quso", "pubo", "puso", "enum"] if src.degree() <= 2 else \
         [("pubo" if True else ""), "puso", "enum"]
